@@ -23,6 +23,7 @@ META = {
 }
 
 NEG = [('tie_first', 'Inv_C03_Nearest'), ('circle_noN', 'Inv_C03_Nearest'), ('idx_line', 'Inv_C03_Nearest'),
+       ('falsy_index', 'Inv_C03_Exact'),
        ('stale_ext', 'Inv_C03_Nearest')]
 NEG_INVS = ['Inv_C03_Nearest', 'Inv_C03_NoTieAssigned', 'Inv_C03_Exact', 'Inv_C03_Lookup', 'Inv_C03_Parse']
 
@@ -82,7 +83,7 @@ def run(tier):
     vlib.sany('Trace_Barcode')
     acts = ['Construct', 'Detect', 'ParseLine', 'CircleStep', 'Resolve', 'NextFile', 'Lookup', 'Answer']
     # negative controls in parallel with the design run (small models, 2 workers each)
-    with ThreadPoolExecutor(max_workers=5) as ex:
+    with ThreadPoolExecutor(max_workers=6) as ex:
         negs = [ex.submit(vlib.mc, 'Barcode', 'MC_Barcode_%s.cfg' % v, expect='fail', expect_inv=NEG_INVS, workers=2, coverage=False)
                 for v, _ in NEG]
         c.mc_pass('Barcode', 'MC_Barcode_design_q.cfg', actions_required=acts, workers=8 if quick else None, timeout=600)
